@@ -1,0 +1,13 @@
+//go:build verif
+
+// Contracts for the deductive verifier in /verif (gocv). Comment-only file.
+
+package tikv
+
+//@ func (s *KVStore) getTimestampWithRetry
+//@   prop C13
+//@   ensures result1 == nil ==> issued(result0)
+
+//@ func (s *KVStore) GetTimestampWithRetry
+//@   prop C13
+//@   ensures result1 == nil ==> issued(result0)
